@@ -341,15 +341,16 @@ def gen_tables(jobs, nproc=16, timeout=900, heap='2g'):
         os.unlink(pout)
         return out, r['wall_s']
 
-    rows, items, asked, wall = [], {}, 0, 0.0
+    rows, items, asked, wall, consts = [], {}, 0, 0.0, set()
     with ThreadPoolExecutor(max_workers=nproc) as ex:
         for out, w_s in ex.map(one, range(len(jobs))):
             rows += out['rows']
             asked += out['asked']
+            consts.add((out.get('nflat'), out.get('nitems'), out.get('nwords')))
             wall = max(wall, w_s)
             for e in out['items']:
                 items[e['i']] = e['it']
-    return rows, items, {'asked': asked, 'rows': len(rows), 'jvms': len(jobs), 'max_wall_s': wall}
+    return rows, items, {'asked': asked, 'rows': len(rows), 'jvms': len(jobs), 'max_wall_s': wall, 'consts': sorted(consts)}
 
 
 # ----------------------------------------------------------------------------------------------------------------------
